@@ -246,6 +246,10 @@ def build ():
       chassis=b"\x04" + M1, port=b"\x05eth1", ttl=120,
       extra=lldp_tlv(7, b"\0\x14\0\x04") + lldp_tlv(5, b"n") +
       lldp_tlv(7, b"\0\xff\0\x80"))))
+  # (the TLV length field has nine bits: values of 256..511 octets)
+  add("lldp_long_tlv", e(bytes.fromhex("0180c200000e"), M1, 0x88cc, lldp(
+      extra=lldp_tlv(6, b"d" * 300) + lldp_tlv(5, b"n" * 256) +
+      lldp_tlv(127, b"\0\x12\x0f\x7f" + b"o" * 507))))
   add("eapol_start", e(bytes.fromhex("0180c2000003"), M1, 0x888e, eapol(1, b"")))
   add("eapol_eap_request", e(bytes.fromhex("0180c2000003"), M1, 0x888e,
       eapol(0, eap(1, 5, 1, b"identity?"))))
